@@ -93,7 +93,23 @@ impl<A: Ord> Bins<A> {
 //@closure 0
 |t: (usize, usize)| -> (r0: usize) ensures r0 == t.0
 //@end
-// Bins::range_of: closure with a tuple pattern `|(left, right)|` is rejected by Verus -> bounded enumeration (enum:bins)
+//@extract file=src/histogram/bins.rs impl=Bins fn=range_of id=Bins::range_of tags=C13,C11
+//@sig
+    pub fn range_of(&self, value: &A) -> (r: Option<Range<A>>)
+    where
+        A: Clone,
+//@spec
+        requires lawful_ord::<A>(), lawful_clone::<A>(), edges_wf(self.edges),
+        ensures
+            match r {
+                // the left-closed, right-open bin that contains the value: two consecutive edges around it
+                Some(rg) => exists|i: int| in_bin(self.edges.edges@, i, *value) && rg.start == self.edges.edges@[i] && rg.end == self.edges.edges@[i + 1], // [C13,C11]
+                None => no_bin(self.edges.edges@, *value), // [C13,C11]
+            },
+//@closure 0
+|t: (usize, usize)| -> (rg: Range<A>) requires t.0 < self.edges.edges@.len(), t.1 < self.edges.edges@.len() ensures rg.start == self.edges.edges@[t.0 as int], rg.end == self.edges.edges@[t.1 as int]
+let (left, right) = (t.0, t.1);
+//@end
 //@endif
 //@extract file=src/histogram/bins.rs impl=Bins fn=index id=Bins::index tags=C13,C16 body_tags=C16
 //@sig
